@@ -89,6 +89,7 @@ type glTr struct {
 	scope   map[string]bool
 	tmp     int
 	ptrs    []string // pointer parameters in order
+	file    *ast.File
 	alias   map[string]string // Go name -> Lean name (Lean's `let mut` cannot be shadowed: re-declared names get a suffix)
 	count   map[string]int
 }
@@ -104,9 +105,14 @@ type glLoop struct {
 	state []string
 }
 
+// glRefusal: the translator does not understand the source as it is now. Only the unit concerned is
+// affected: its generated file becomes a stub without definitions, so exactly the tie modules that
+// depend on it stop building.
+type glRefusal struct{ msg string }
+
 func (t *glTr) die(n ast.Node, format string, a ...any) {
 	pos := fset.Position(n.Pos())
-	die("golean: %s:%d (%s): %s", pos.Filename, pos.Line, t.fn.Name, fmt.Sprintf(format, a...))
+	panic(glRefusal{fmt.Sprintf("%s:%d (%s): %s", strings.TrimPrefix(pos.Filename, repo+"/"), pos.Line, t.fn.Name, fmt.Sprintf(format, a...))})
 }
 
 func glIndent(n int) string { return strings.Repeat("  ", n) }
@@ -275,6 +281,15 @@ func (t *glTr) expr(e ast.Expr) (string, bool) {
 			t.die(e, "nil")
 		}
 		if !t.scope[x.Name] {
+			// a package-level constant of the same file: its value is read from the source
+			if v := findValue(t.file, x.Name); v != nil {
+				if c, ok := glConst(v); ok {
+					return glNum(c), true
+				}
+				if str, ok := evalString(v, nil); ok {
+					return "(" + leanBytes(str) + " : Bytes)", true
+				}
+			}
 			t.die(e, "unknown identifier %s (add it to Env)", x.Name)
 		}
 		return t.nm(x.Name), true
@@ -1317,6 +1332,22 @@ func (t *glTr) forStmtRange(ind int, key string, cond ast.Expr, post ast.Stmt, b
 // ---------------------------------------------------------------------------------------------
 
 func glTranslate(u glUnit) {
+	defer func() {
+		if r := recover(); r != nil {
+			ref, ok := r.(glRefusal)
+			if !ok {
+				panic(r)
+			}
+			stub := fmt.Sprintf("-- GENERATED by /verif/tools/extract (golean.go). The translator REFUSED this unit as the source is now:\n--   %s\nimport Glb.Go.Prelude\nnamespace %s\ndef translatorRefused : String := %q\nend %s\n", ref.msg, u.NS, ref.msg, u.NS)
+			writeIfChanged(u.Module, stub)
+			facts["golean."+u.Module] = map[string]any{"refused": ref.msg}
+			fmt.Fprintf(os.Stderr, "extract: golean refused %s: %s\n", u.Module, ref.msg)
+		}
+	}()
+	glTranslateUnit(u)
+}
+
+func glTranslateUnit(u glUnit) {
 	var b strings.Builder
 	files := map[string]*ast.File{}
 	srcs := []string{}
@@ -1343,13 +1374,13 @@ func glTranslate(u glUnit) {
 		f := &u.Funcs[i]
 		decl := findFunc(files[f.File], f.Recv, f.Name)
 		if decl == nil || decl.Body == nil {
-			die("golean: %s: function %s not found", f.File, f.Name)
+			panic(glRefusal{fmt.Sprintf("%s: function %s not found", f.File, f.Name)})
 		}
 		lean := f.Lean
 		if lean == "" {
 			lean = f.Name
 		}
-		t := &glTr{fn: f, decl: decl, b: &b, scope: map[string]bool{}, alias: map[string]string{}, count: map[string]int{}}
+		t := &glTr{fn: f, decl: decl, file: files[f.File], b: &b, scope: map[string]bool{}, alias: map[string]string{}, count: map[string]int{}}
 		sig := &glSig{lean: u.NS + "." + lean}
 		for _, fld := range decl.Type.Params.List {
 			for _, n := range fld.Names {
@@ -1515,12 +1546,11 @@ func extractGoLean() {
 		},
 	})
 
-	esc := func(s string) string { return "(" + leanBytes(s) + " : Bytes)" }
 	glTranslate(glUnit{
 		Module: "TrAnsi", NS: "Glb.Tr.Ansi",
 		Funcs: []glFunc{
-			{File: "ansi/terminfo.go", Name: "ScrollUpN", Args: "(n : Int)", Ret: "Bytes", Env: map[string]string{"ScrollUp": esc("\x1bM")}},
-			{File: "ansi/terminfo.go", Name: "ScrollDownN", Args: "(n : Int)", Ret: "Bytes", Env: map[string]string{"ScrollDown": esc("\x1bD")}},
+			{File: "ansi/terminfo.go", Name: "ScrollUpN", Args: "(n : Int)", Ret: "Bytes"},
+			{File: "ansi/terminfo.go", Name: "ScrollDownN", Args: "(n : Int)", Ret: "Bytes"},
 		},
 	})
 }
